@@ -138,7 +138,7 @@ def history(F, R):
         lib.only_under(R, f, F, rl, pu[0], {'Some'}, 'release-evicted-under-Some', 'the evicted history entry gives its reference back')
         for x in rl:
             t = sym_nstr(sym(f, x.args[1]))
-            R.ob('FLOW', 'FLOW::%s::released-offset-is-the-evicted-one' % fnkey(f), 'push_with_overflow' in t and 'offset' in t, 'release_chunk(%s)' % t, x.where, f)
+            R.ob('FLOW', 'FLOW::%s::released-offset-is-the-evicted-one' % fnkey(f), lib.has_origin(f, x.args[1], r'::push_with_overflow$'), 'release_chunk(%s)' % t, x.where, f)
         for _ in [0]:
             pth = None
             for b in lib.switches_on_result_of(f, pu[0]):
@@ -172,9 +172,9 @@ def loans(F, R):
     R.exact('deallocate_bucket sites in release_chunk', len(de), 1)
     for d in de:
         conds = lib.path_conds(rel, d, F)
-        ok = any(re.search(r'^\(Sender::untrack_chunk\(self, offset\) == 1\)$', c) for c in conds)
+        ok = any(re.search(r'^\(Sender::untrack_chunk\([^()]*\) == 1\)$', c) for c in conds)
         R.ob('ONLY-UNDER', 'ONLY-UNDER::%s::deallocate-under-last-reference' % fnkey(rel), ok, 'deallocate_bucket guarded by %s; required untrack_chunk(offset) == 1 (previous count one => now zero)' % conds, d.where, rel)
-        R.ob('FLOW', 'FLOW::%s::deallocates-the-released-offset' % fnkey(rel), sym_nstr(sym(rel, d.args[1])) == 'offset', 'deallocate_bucket(%s)' % sym_nstr(sym(rel, d.args[1])), d.where, rel)
+        R.ob('FLOW', 'FLOW::%s::deallocates-the-released-offset' % fnkey(rel), lib.param_is(rel, d.args[1], 'offset', 2), 'deallocate_bucket(%s)' % sym_nstr(sym(rel, d.args[1])), d.where, rel)
     callers = set(core.strip_generics(s.fn.id) for s in F.callers_of(r'segment_state::SegmentState::release_chunk$'))
     R.ob('WHO-MAY-CALL', 'WHO-MAY-CALL::SegmentState::release_chunk', callers == {core.strip_generics(S + 'untrack_chunk')}, 'callers: %s' % sorted(callers), rel.file, rel)
     callers = set(core.strip_generics(s.fn.id) for s in F.callers_of(r'::deallocate_bucket$') if s.fn.crate == 'iceoryx2' and 'sender' in s.fn.id)
@@ -221,7 +221,7 @@ def reclaim(F, R):
     if cl:
         c = cl[0]
         for x in c.calls(r'Sender::<.*>::release_chunk$'):
-            R.ob('FLOW', 'FLOW::%s::releases-the-callback-offset' % fnkey(c), sym_nstr(sym(c, x.args[1])) == 'offset', 'release_chunk(%s)' % sym_nstr(sym(c, x.args[1])), x.where, c)
+            R.ob('FLOW', 'FLOW::%s::releases-the-callback-offset' % fnkey(c), lib.param_is(c, x.args[1], 'offset', 2), 'release_chunk(%s)' % sym_nstr(sym(c, x.args[1])), x.where, c)
     clear = [s for s in g.sites if s.i != 'T' and s.node[0] == 'a' and '*' in s.node[1][1:] and g.prov_place(s.node[1]).root[0] == 'call' and (g.prov_place(s.node[1]).root[1].callee or '').endswith('::get_mut')]
     if not clear:
         clear = [s for s in g.sites if s.is_call and (s.callee or '').endswith('::get_mut')]
